@@ -4,6 +4,7 @@ import (
 	"fmt"
 	"go/constant"
 	"go/token"
+	"go/types"
 	"strings"
 
 	"golang.org/x/tools/go/ssa"
@@ -22,7 +23,7 @@ func nodeOperands(call *ssa.Call) []ssa.Value {
 		if mi, ok := a.(*ssa.MakeInterface); ok {
 			a = mi.X
 		}
-		if isNodePtr(a.Type()) {
+		if isNodePtr(a.Type()) || isListElementPtr(a.Type()) {
 			out = append(out, a)
 		}
 	}
@@ -92,6 +93,9 @@ func elementFilters(c *Ctx, call *ssa.Call, elem ssa.Value) []elemFilter {
 
 // loopHeaderOf: elem is `el.Value.(*CandidateNode)` for a list element el that is a loop phi; returns the phi's block.
 func loopHeaderOf(elem ssa.Value) *ssa.BasicBlock {
+	if phi, ok := elem.(*ssa.Phi); ok && isListElementPtr(phi.Type()) {
+		return phi.Block()
+	}
 	if ta, ok := elem.(*ssa.TypeAssert); ok {
 		elem = ta.X
 	}
@@ -257,4 +261,14 @@ func readsListElement(v ssa.Value, el ssa.Value, d int) bool {
 		return readsListElement(x.X, el, d+1)
 	}
 	return false
+}
+
+// isListElementPtr: *container/list.Element
+func isListElementPtr(t types.Type) bool {
+	p, ok := t.(*types.Pointer)
+	if !ok {
+		return false
+	}
+	n, ok := p.Elem().(*types.Named)
+	return ok && n.Obj().Name() == "Element" && n.Obj().Pkg() != nil && n.Obj().Pkg().Path() == "container/list"
 }
